@@ -136,6 +136,46 @@ for (dim, w, tiers) in ((2, 2, ("quick", "thorough")), (1, 4, ("quick", "thoroug
         u["backend"] = "minisat"
         UNITS.append(u)
 
+# ---------------------------------------------------------------- KPIECE: the owners of the two-queue grid keep every changed priority re-sorted
+DISC = "src/ompl/geometric/planners/kpiece/Discretization.h"
+CKP = "src/ompl/control/planners/kpiece/src/KPIECE1.cpp"
+KP_RULES = [
+    (r"OMPL_DEBUG\([^;]*\);", "", 0),
+    (r"Grid::Coord coord\(projectionEvaluator_->getDimension\(\)\);\s*projectionEvaluator_->computeCoordinates\(motion->state, coord\);", "", 0),
+    (r"(?:Grid::)?Cell \*cell = (?:tree_\.grid|grid_)\.getCell\(coord\);", "CellRef cell = GRID_getCell();", 0),
+    (r"cell = (?:tree_\.grid|grid_)\.createCell\(coord\);", "cell = GRID_createCell();", 0), (r"cell->data = new CellData\(\);", "", 0),
+    (r"(\w+)->data->motions\.push_back\(motion\);", r"C_nmotions[\1]++;", 0),
+    (r"\+\+(\w+)->data->selections;", r"TOUCH(\1); C_selections[\1]++;", 0), (r"(\w+)->data->selections\+\+;", r"TOUCH(\1); C_selections[\1]++;", 0),
+    (r"(\w+)->data->(coverage|score|selections) (\+=|\*=|=) ([^;]+);", r"TOUCH(\1); C_\2[\1] \3 \4;", 0),
+    (r"(\w+)->data->iteration = ([^;]+);", r"C_iteration[\1] = \2;", 0),
+    (r"(?:tree_\.grid|grid_)\.update\((\w+)\);", r"GRID_update(\1);", 0), (r"(?:tree_\.grid|grid_)\.add\((\w+)\);", r"GRID_add(\1);", 0), (r"(?:tree_\.grid|grid_)\.updateAll\(\);", "GRID_updateAll();", 0),
+    (r"log\(\(double\)\((?:tree_\.)?iteration_?\)\)", "LOG_(iteration_)", 0), (r"tree_\.iteration\b", "iteration_", 0), (r"tree_\.size\+\+;", "size_++;", 0), (r"motion->steps", "(double)motion->steps", 0), (r"DISTANCE_TO_GOAL_OFFSET", "1e-3", 0),
+    # selectMotion
+    (r"rng_\.uniform01\(\)", "UNIFORM01()", 0), (r"std::max\(", "MAXD(", 0), (r"(?:tree_\.grid|grid_)\.(fracExternal|topExternal|topInternal)\(\)", r"GRID_\1()", 0),
+    (r"std::vector<CellData \*> content;\s*content\.reserve\((?:tree_\.grid|grid_)\.size\(\)\);\s*(?:tree_\.grid|grid_)\.getContent\(content\);\s*for \(auto it = content\.begin\(\); it != content\.end\(\); \+\+it\)\s*\(\*it\)->score \+= 1\.0 \+ log\(\(double\)\(\(\*it\)->iteration\)\);",
+     "for (CellRef c_ = 1; c_ < NC; c_++) if (in_grid[c_]) { TOUCH(c_); C_score[c_] += 1.0 + LOG_(C_iteration[c_]); }", 0),
+    (r"std::vector<CellData \*> content;\s*content\.reserve\((?:tree_\.grid|grid_)\.size\(\)\);\s*(?:tree_\.grid|grid_)\.getContent\(content\);\s*for \(auto &it : content\)\s*it->score \+= 1\.0 \+ log\(\(double\)\(it->iteration\)\);",
+     "for (CellRef c_ = 1; c_ < NC; c_++) if (in_grid[c_]) { TOUCH(c_); C_score[c_] += 1.0 + LOG_(C_iteration[c_]); }", 0),
+    (r"assert\(scell && !scell->data->motions\.empty\(\)\);", "", 0),
+    (r"smotion = scell->data->motions\[rng_\.halfNormalInt\(0, scell->data->motions\.size\(\) - 1\)\];", "(*smotion_p) = PICK_MOTION(scell);", 0),
+    (r"!scell->data->motions\.empty\(\)", "(C_nmotions[scell] != 0)", 0), (r"scell->data->score", "C_score[scell]", 0),
+    (r"std::numeric_limits<double>::epsilon\(\)", "DBL_EPSILON", 0), (r"\bscell\b", "(*scell_p)", 0),
+]
+KP_SRC = [
+    dict(name="disc_addMotion", file=DISC, sig=r"unsigned int addMotion\(Motion \*motion, const Coord &coord, double dist = 0\.0\)", rules=KP_RULES, loops={"allow_uncontracted": True}),
+    dict(name="disc_selectMotion", file=DISC, sig=r"void selectMotion\(Motion \*&smotion, Cell \*&scell\)", rules=KP_RULES, loops={"allow_uncontracted": True}),
+    dict(name="ck_addMotion", file=CKP, sig=r"ompl::control::KPIECE1::Grid::Cell \*ompl::control::KPIECE1::addMotion\(Motion \*motion, double dist\)", rules=KP_RULES, loops={"allow_uncontracted": True}),
+    dict(name="ck_selectMotion", file=CKP, sig=r"bool ompl::control::KPIECE1::selectMotion\(Motion \*&smotion, Grid::Cell \*&scell\)", rules=KP_RULES, loops={"allow_uncontracted": True}),
+]
+KP_UNITS = []
+for _h, _fn, _needs, _can in (("disc_addMotion", "geometric Discretization::addMotion", ["disc_addMotion"], [dict(name="existing_cell_not_resorted", where="body:disc_addMotion", rx=r"GRID_update\(cell\);", repl=";")]),
+                              ("disc_selectMotion", "geometric Discretization::selectMotion", ["disc_selectMotion"], [dict(name="rescoring_resorts_only_the_selected_cell", where="body:disc_selectMotion", rx=r"GRID_updateAll\(\);", repl="GRID_update((*scell_p));")]),
+                              ("ck_addMotion", "control::KPIECE1::addMotion", ["ck_addMotion"], [dict(name="existing_cell_not_resorted", where="body:ck_addMotion", rx=r"GRID_update\(cell\);", repl=";")]),
+                              ("ck_selectMotion", "control::KPIECE1::selectMotion", ["ck_selectMotion"], [dict(name="rescoring_without_resorting", where="body:ck_selectMotion", rx=r"GRID_updateAll\(\);", repl=";")])):
+    KP_UNITS.append(dict(name="c13_kpiece_" + _h, template="C13/kpiece_disc.c", mode="plain", entry="h_" + _h, sources=KP_SRC, needs=_needs, flags=["--bounds-check", "--pointer-check"], unwind=7, level="bounded",
+                         bound="<= 4 cells, every subset present", backend="minisat", timeout=300, functions=[_fn], canaries=_can))
+UNITS += KP_UNITS
+
 ASSUMPTIONS = [
     "bounded world: grids of dimension 2 inside a 3x3 window (thorough: also 1-D width 4 and 3-D 2x2x2); probes may fall one step outside the window",
     "assumed finite-map contract for std::unordered_map keyed by coordinate value (direct table model in units/C13/grid_model.h); Eigen::VectorXi modelled as int[DIM]",
